@@ -10,7 +10,7 @@ RULE = (
     "(every parent target, every children sequence incl. repeats/self/ancestors, deletions, non-node and non-iterable arguments) x "
     "every position at which any of the eight hooks can raise (once; pairs up to N=3; single persistent (hook,node) pairs; read-only "
     "class plan), for a NodeMixin class, a slotted LightNodeMixin class, a mixed-family universe and two classes whose instances all compare equal (value-style __eq__/__hash__), each under both assertion settings. "
-    "Generated: Hypothesis histories (<= 7 nodes, <= 30 calls) over 11 class mixes with random fault plans. Non-trivial = the call "
+    "Generated: Hypothesis histories (<= 7 nodes, <= 30 calls) over 13 class mixes (incl. links whose targets are nodes of the same universe) with random fault plans. Non-trivial = the call "
     "changed at least one link, or raised after at least one hook had run. Enumerated cases distinct by construction; histories hashed."
 )
 ASSUMPTIONS = [
@@ -30,6 +30,8 @@ CLASS_SPECS = [
     "HEqNM",
     "HEqLM",
     ["HEqNM", "HNM"],
+    ["HNode", "HSymlinkU", "HAnyNode", "HSymlinkU"],
+    ["Node", "SymlinkNodeU"],
 ]
 
 
@@ -61,7 +63,7 @@ def check_case(case, acc):
     acc.tag("assertions_on_cases", int(case.get("assertions", 0)))
 
 
-ENUM_SPECS = ["HNM", "HLM", ["HNM", "HLM"], "HEqNM", "HEqLM"]
+ENUM_SPECS = ["HNM", "HLM", ["HNM", "HLM"], "HEqNM", "HEqLM", ["HNode", "HSymlinkU"]]
 
 
 def plan(tier, seed):
